@@ -179,8 +179,30 @@ def full_frag(rng):
     return s
 
 
+def member(rng):
+    """A validated member of a random citation pattern of the installed database (full or short
+    form, including reporters, laws and journals with custom templates: 'NY Slip Op 51797(U)', ...)."""
+    from vmon.rxgen import sample
+    for _ in range(8):
+        e = rng.choice(DB.cit_extractors)
+        if not (e.regex.startswith(PRE) and e.regex.endswith(POST)):
+            continue
+        body = e.regex[len(PRE):-len(POST)]
+        try:
+            s = sample(body, rng, e.flags, maxrep=2)
+        except Exception:
+            continue
+        if "\n" not in s and e.compiled_regex.search(s):
+            return s
+    return "1 U.S. 1"
+
+
 def frag(rng):
     r = rng.random()
+    if r < 0.06:
+        m = member(rng)
+        return rng.choice(["", name(rng) + " v. " + name(rng) + ", ", name(rng) + ", "]) + m + rng.choice(
+            ["", " (1999)", ", 5", ". Id. at 3"])
     if r < 0.28:
         return full_frag(rng)
     if r < 0.36:
